@@ -25,6 +25,7 @@ package main
 
 import (
 	"bytes"
+	crand "crypto/rand"
 	"crypto/sha256"
 	"flag"
 	"fmt"
@@ -34,6 +35,7 @@ import (
 	"os/exec"
 	"strings"
 	"sync"
+	"sync/atomic"
 
 	ike "github.com/free5gc/ike"
 	"github.com/free5gc/ike/eap"
@@ -653,6 +655,23 @@ func child(seed int64, n, steps int, misuse bool) int {
 	return 0
 }
 
+// atomicReader: splitmix64 over an atomic counter; safe for concurrent use; the octets are stored into p by
+// ordinary (instrumented) writes, unlike the getrandom system call of the real source
+type atomicReader struct{ ctr uint64 }
+
+func (r *atomicReader) Read(p []byte) (int, error) {
+	for i := 0; i < len(p); i += 8 {
+		z := atomic.AddUint64(&r.ctr, 0x9e3779b97f4a7c15)
+		z = (z ^ (z >> 30)) * 0xbf58476d1ce4e5b9
+		z = (z ^ (z >> 27)) * 0x94d049bb133111eb
+		z ^= z >> 31
+		for j := 0; j < 8 && i+j < len(p); j++ {
+			p[i+j] = byte(z >> (8 * uint(j)))
+		}
+	}
+	return len(p), nil
+}
+
 func selftest() int {
 	x := 0
 	var wg sync.WaitGroup
@@ -677,9 +696,13 @@ func main() {
 	isChild := flag.Bool("child", false, "run the check in this process")
 	self := flag.Bool("selftest", false, "run a deliberate data race (must be reported)")
 	misuse := flag.Bool("misuse", false, "negative control: all goroutines share one pair of SA key objects (a race in the library's use of them must be reported)")
+	goreader := flag.Bool("goreader", false, "install a random source written in Go (concurrency-safe itself, plain writes into the buffer it is given) as crypto/rand.Reader: the race detector then sees where the library lets it write")
 	cold := flag.Bool("cold", false, "the goroutines make the first calls into the library of this process (lazy initialisation under contention); solo runs afterwards")
 	flag.Parse()
 	if *isChild {
+		if *goreader {
+			crand.Reader = &atomicReader{}
+		}
 		if *self {
 			os.Exit(selftest())
 		}
